@@ -16,29 +16,31 @@ import json, io, contextlib, warnings
 import numpy as np
 warnings.simplefilter('ignore')
 from exactpack.solvers.ehep.ehep import EscapeOfHEProducts as E
-with contextlib.redirect_stdout(io.StringIO()): s = E()
 worst = {}; n = 0
-def F(x_, t_):
-    with contextlib.redirect_stdout(io.StringIO()): r = s(np.array([x_]), t_)
-    return {k: (float(r[k][0]) if k != 'region' else r[k][0]) for k in r.dtype.names}
-for t0 in (0.6, 1.0, 1.7, 2.5, 4.0):
-    for x0 in np.linspace(-2.0, 4.0, 61):
-        h = 1e-4; c = F(x0, t0)
-        if c['region'] not in ('I', 'II', 'III', 'IV', 'V'): continue
-        nb = [F(x0 + h, t0), F(x0 - h, t0), F(x0, t0 + h), F(x0, t0 - h)]
-        if any(q['region'] != c['region'] for q in nb): continue
-        n += 1
-        def cons(q):
-            E_ = q['density'] * (q['specific_internal_energy'] + q['velocity'] ** 2 / 2)
-            return (q['density'], q['density'] * q['velocity'], E_), (q['density'] * q['velocity'], q['density'] * q['velocity'] ** 2 + q['pressure'], q['velocity'] * (E_ + q['pressure']))
-        U = [cons(q)[0] for q in nb]; Fl = [cons(q)[1] for q in nb]
-        for k, nm in enumerate(('mass', 'momentum', 'energy')):
-            res = (U[2][k] - U[3][k]) / (2 * h) + (Fl[0][k] - Fl[1][k]) / (2 * h)
-            sc = abs(cons(c)[0][k]) / t0 + 1e-12
-            worst[(nm, c['region'])] = max(worst.get((nm, c['region']), 0.0), abs(res) / sc)
-        eos = abs(c['pressure'] - (s.gamma - 1) * c['density'] * c['specific_internal_energy']) / (abs(c['pressure']) + 1e-300)
-        ss = abs(c['sound_speed'] ** 2 - s.gamma * c['pressure'] / c['density']) / (c['sound_speed'] ** 2 + 1e-300) if c['density'] > 0 else 0.0
-        worst[('eos', c['region'])] = max(worst.get(('eos', c['region']), 0.0), eos, ss)
+def cons(q):
+    E_ = q['density'] * (q['specific_internal_energy'] + q['velocity'] ** 2 / 2)
+    return (q['density'], q['density'] * q['velocity'], E_), (q['density'] * q['velocity'], q['density'] * q['velocity'] ** 2 + q['pressure'], q['velocity'] * (E_ + q['pressure']))
+for kw in (dict(), dict(xtilde=2.5), dict(D=1.2, rho_0=2.0, up=0.1, xtilde=0.4)):
+    with contextlib.redirect_stdout(io.StringIO()): s = E(**kw)
+    def F(x_, t_):
+        with contextlib.redirect_stdout(io.StringIO()): r = s(np.array([x_]), t_)
+        return {k: (float(r[k][0]) if k != 'region' else r[k][0]) for k in r.dtype.names}
+    sx_ = kw.get('xtilde', 1.0); st_ = sx_ / kw.get('D', 0.85)
+    for t0 in np.array([0.5, 0.85, 1.45, 2.1, 3.4]) * st_:
+        for x0 in np.linspace(-2.0, 4.0, 61) * sx_:
+            h = 1e-4 * sx_; ht = 1e-4 * st_; c = F(x0, t0)
+            if c['region'] not in ('I', 'II', 'III', 'IV', 'V'): continue
+            nb = [F(x0 + h, t0), F(x0 - h, t0), F(x0, t0 + ht), F(x0, t0 - ht)]
+            if any(q['region'] != c['region'] for q in nb): continue
+            n += 1
+            U = [cons(q)[0] for q in nb]; Fl = [cons(q)[1] for q in nb]
+            for k, nm in enumerate(('mass', 'momentum', 'energy')):
+                res = (U[2][k] - U[3][k]) / (2 * ht) + (Fl[0][k] - Fl[1][k]) / (2 * h)
+                sc = abs(cons(c)[0][k]) / t0 + 1e-12
+                worst[(nm, c['region'])] = max(worst.get((nm, c['region']), 0.0), abs(res) / sc)
+            eos = abs(c['pressure'] - (s.gamma - 1) * c['density'] * c['specific_internal_energy']) / (abs(c['pressure']) + 1e-300)
+            ss = abs(c['sound_speed'] ** 2 - s.gamma * c['pressure'] / c['density']) / (c['sound_speed'] ** 2 + 1e-300) if c['density'] > 0 else 0.0
+            worst[('eos', c['region'])] = max(worst.get(('eos', c['region']), 0.0), eos, ss)
 bad = {'%s in region %s' % k: v for k, v in worst.items() if v > 1e-4}
 print(json.dumps({'reproduced': bool(bad), 'interior_points': n, 'relative_residuals_above_1e-4': bad}))
 """
@@ -76,6 +78,42 @@ def regions():
     return out
 
 
+TV_NAT = r"""
+import json, io, contextlib, warnings
+import numpy as np
+warnings.simplefilter('ignore')
+from exactpack.solvers.ehep.ehep import EscapeOfHEProducts as E
+kw = dict(D=0.85, rho_0=1.6, up=0.05, xtilde=1.3)
+with contextlib.redirect_stdout(io.StringIO()): s = E(**kw)
+rows = []
+for t0 in (0.8, 1.9, 2.7, 4.4, 6.3):
+    xs = np.linspace(-2.5, 6.0, 35) + 0.0071
+    with contextlib.redirect_stdout(io.StringIO()): r = s(xs, t0)
+    for i in range(len(xs)):
+        if r['region'][i] in ('I', 'II', 'III', 'IV', 'V'):
+            rows.append([float(xs[i]), t0, r['region'][i]] + [float(r[k][i]) for k in ('density', 'velocity', 'pressure', 'specific_internal_energy', 'sound_speed')])
+print(json.dumps({'reproduced': False, 'kw': kw, 'rows': rows}))
+"""
+
+
+def translation_validation(reg):
+    """the extracted region formulas against the real solver: every sampled point the solver assigns to region L is compared with the formulas of region L"""
+    from vc import native, alg
+    r_ = native.run_script(TV_NAT, timeout=300)
+    if r_.get('result') is None: return 0, ['translation validation did not run: ' + (r_.get('stderr_tail') or '')[-200:]]
+    kw = r_['result']['kw']; mism = []; n = 0; seen = set()
+    for row in r_['result']['rows']:
+        xx, tt, lab = row[:3]; F, pc, rl = reg[lab]
+        pt = {x: sp.Rational(repr(xx)), t: sp.Rational(repr(tt)), D: sp.Rational(str(kw['D'])), rho_0: sp.Rational(str(kw['rho_0'])), up: sp.Rational(str(kw['up'])), xtilde: sp.Rational(str(kw['xtilde']))}
+        n += 1; seen.add(lab)
+        for k, real in zip(('rho', 'u', 'p', 'e', 'cs'), row[3:]):
+            mine = float(alg.numeric(F[k], pt, 20))
+            if abs(mine - real) > 1e-9 * max(abs(mine), abs(real)) + 1e-300:
+                mism.append('region %s field %s at (x=%s, t=%s): extracted %.12g real %.12g' % (lab, k, xx, tt, mine, real)); break
+    if len(seen) < 4: mism.append('translation validation reached only regions %s' % sorted(seen))
+    return n, mism
+
+
 def functions():
     return [{'ref': '%s::EscapeOfHEProducts.%s' % (SRC, m), 'sha256_16': R.source_hash(R.func_ref('%s::EscapeOfHEProducts.%s' % (SRC, m)))} for m in ('_run', 'p_rho')]
 
@@ -86,6 +124,9 @@ def unit(pid):
         reg = regions()
     except Unsupported as u_:
         O.append(core.Obl('%s/ehep/extraction' % pid, 'open', 'extraction', 0.0, detail=str(u_)[:300])); return res
+    n_, mm = translation_validation(reg)
+    res['tv'] = {'functions': 1, 'points': n_, 'mismatches': len(mm)}
+    for m_ in mm[:4]: res['engine_errors'].append('translation validation: ' + m_)
     hy = [up < D / 4]
     for lab, (F, pc, rl) in sorted(reg.items()):
         base = '%s/ehep/region_%s' % (pid, lab); h = hy + pc
